@@ -70,12 +70,14 @@ pub mod fs_more {
     use super::*;
     #[verifier::external_body]
     pub fn metadata(p: &Path, Tracked(w): Tracked<&mut World>) -> (r: std::result::Result<Metadata, io::Error>)
-        ensures fr_ro(*old(w), *final(w)), final(w).faults == old(w).faults + (if r is Err { 1nat } else { 0 }),
+        ensures fr_ro(*old(w), *final(w)), final(w).faults == old(w).faults + (if r is Err && exists_m(old(w).paths, p.key()) { 1nat } else { 0 }),
+            !exists_m(old(w).paths, p.key()) ==> r is Err,
             r is Ok ==> exists_m(old(w).paths, p.key()) && meta_of_node(r->Ok_0, old(w).paths[p.key()], old(w).files),
     { unimplemented!() }
     #[verifier::external_body]
     pub fn symlink_metadata(p: &Path, Tracked(w): Tracked<&mut World>) -> (r: std::result::Result<Metadata, io::Error>)
-        ensures fr_ro(*old(w), *final(w)), final(w).faults == old(w).faults + (if r is Err { 1nat } else { 0 }),
+        ensures fr_ro(*old(w), *final(w)), final(w).faults == old(w).faults + (if r is Err && old(w).paths.contains_key(p.key()) { 1nat } else { 0 }),
+            !old(w).paths.contains_key(p.key()) ==> r is Err,
             r is Ok ==> old(w).paths.contains_key(p.key()) && r->Ok_0.spec_kind() == old(w).paths[p.key()].kind && r->Ok_0.spec_len() == old(w).paths[p.key()].size
                 && (old(w).paths[p.key()].kind != NodeKind::Symlink ==> meta_of_node(r->Ok_0, old(w).paths[p.key()], old(w).files)),
     { unimplemented!() }
